@@ -126,7 +126,8 @@ run (const struct call *c, long f1, long f2, struct outcome *o)
   if (c->ep <= 2)
     {
       struct crypt_data *d = c->ep == 2 ? ra_data : obj;
-      if (d && (c->ep != 2 || ra_size >= (int) sizeof *d))
+      /* the recorded size may lie (that is one of the things being checked): trust the ledger's real size */
+      if (d && (c->ep != 2 || (ra_size >= (int) sizeof *d && vh_ledger_find (ra_data) && vh_ledger_find (ra_data)->n >= sizeof *d)))
         {
           for (size_t i = 0; i < sizeof d->internal; i++)
             if (d->internal[i])
@@ -296,6 +297,11 @@ main (int argc, char **argv)
   vh_mmap_cap = (size_t) 80 << 20;
   obj = calloc (1, sizeof *obj);
   mkcorpus ();
+  /* a crash anywhere after a faulted call (the harness walking a block whose recorded size lies, say) is reported for the
+     current case rather than as an internal error */
+  vh_fatal_exit = 0;
+  vh_cur_case = cj;
+  snprintf (cj, sizeof cj, "{\"case\":\"startup\"");
   if (vh_replay && *vh_replay)
     {
       one_call (atoi (vh_replay));
